@@ -96,6 +96,18 @@ def model_inputs(model, names, ty):
     return out
 
 
+def model_ints(model, names):
+    out = []
+    for n in names:
+        v = None
+        for d in model.decls():
+            if d.name() == n:
+                v = model[d]
+                break
+        out.append(v.as_signed_long() if v is not None and z3.is_bv_value(v) else 0)
+    return out
+
+
 def z3_to_np(v, ty):
     t = modes.NPT[ty]
     if z3.is_fp(v):
@@ -125,10 +137,11 @@ def z3_to_np(v, ty):
     return t(0)
 
 
-def frac_round(fr, ty):
-    """round a rational to the nearest value of the type (RNE via integer arithmetic)"""
+def rnd_frac(fr, ty):
+    """round a rational to the nearest value of the type (RNE, exact integer arithmetic); returns a Fraction,
+    or 'inf' / '-inf' on overflow"""
     if fr == 0:
-        return modes.NPT[ty](0)
+        return Fraction(0)
     p = tm.FPREC[ty]
     neg = fr < 0
     a = abs(fr)
@@ -142,9 +155,13 @@ def frac_round(fr, ty):
     if rem > Fraction(1, 2) or (rem == Fraction(1, 2) and n % 2 == 1):
         n += 1
     r = Fraction(n) * Fraction(2) ** (e - p + 1)
-    if e > tm.FEMAX[ty] or r >= Fraction(2) ** (tm.FEMAX[ty] + 1):
-        return modes.NPT[ty](-np.inf if neg else np.inf)
-    return modes.frac_to_np(ty, -r if neg else r)
+    if r >= Fraction(2) ** (tm.FEMAX[ty] + 1):
+        return '-inf' if neg else 'inf'
+    return -r if neg else r
+
+
+def frac_round(fr, ty):
+    return modes.frac_to_np(ty, rnd_frac(fr, ty))
 
 
 def np_to_frac(v):
@@ -327,6 +344,9 @@ class Report:
         for o in new_viol[:50]:
             print('VIOLATION property=%s replay=%s' % (self.prop, o.replay or 'none'))
             print('  ' + o.desc + ' :: ' + (o.reason or ''))
+        if os.environ.get('PHQV_VERBOSE'):
+            for o in inc:
+                print('  INCONCLUSIVE %s :: %s' % (o.oid, (o.reason or '')[:300]))
         if inc:
             rs = summarize_reasons(inc)
             print('  inconclusive: ' + '; '.join('%s x%d' % (k, v) for k, v in list(rs.items())[:8]))
